@@ -515,7 +515,7 @@ def _collect(gen):
             out.append(x)
     except Exception as e:  # noqa
         return {"links": out, "error": type(e).__name__}
-    return {"links": out, "error": None}
+    return {"links": out}
 
 
 def _urls(doc):
